@@ -25,6 +25,9 @@ CHECKS['C12'] = dict(cat='proof', tech='contract-based deductive verification: t
 CHECKS['C18'] = dict(cat='proof', tech='contract-based deductive verification: program equivalence of two captured real generated checkers (rewriting conf vs hand-rewritten hint), one z3 query per pair for all objects and draws',
    text="For every enumerated shape containing float / complex / an overridden hint, the checker generated under the rewriting configuration (is_pep484_tower, hint_overrides incl. NewType and subscripted keys and self-referential overrides, violation_*type) and the checker generated for the hand-rewritten hint under the default configuration are captured from the real generator and proved logically equivalent for ALL objects and ALL draws; both are also proved defined.",
    note='Trusted: pyvc, z3/cvc5, Python semantics of pyvc/model.py. Bounded in the shape (depth <= 3, seeded sample); the hand rewrite is a single simultaneous textual substitution; aliases hiding the overridden class (NewType/TypeVar over it) are excluded as not being textual occurrences; the explanation path is not covered.', ref='4 (C18)')
+CHECKS['C04'] = dict(cat='proof', tech='contract-based deductive verification: the captured real wrapper text executed symbolically for arbitrary args/kwargs (loop summaries with quantified invariants), postconditions from the language-reference binding rule, z3 + cvc5; iter_func_args bounded run-time contract',
+   text="For every enumerated signature (five parameter kinds, annotated subsets, defaults) the wrapper source that @beartype really generates is captured and executed symbolically with args an ARBITRARY tuple and kwargs an ARBITRARY dict. Proved on every path: a raised parameter violation names an annotated parameter, its value is a value Python binds to that parameter and does not conform, no earlier passed annotated parameter is left unchecked, the original is not called before; whenever the original is called it is called exactly once with *args/**kwargs unchanged after every passed annotated value (incl. each *args item and each non-parameter keyword) conformed; the returned object is the callee's result and a callee exception propagates as the same object; args/kwargs are only read. iter_func_args is covered by a bounded run-time contract against inspect.signature (labelled bounded).",
+   note='Trusted: pyvc, z3/cvc5, Python semantics of pyvc/model.py, the binding rule as written in pyvc/wrapcheck.py. Bounded in the signature shape (<=2 params exhaustive + all 3-kind sequences + sample of 5-7 params in quick; <=4 exhaustive + 300 in thorough), unbounded in calls. Assumes no passed value is the private sentinel __beartype_get_violation. make_func_signature/code_check_args assembly is covered only through the enumerated signatures.', ref='4 (C04)')
 NA = {}
 def main():
     props = [json.loads(l) for l in open(os.path.join(V, 'properties.jsonl'))]
